@@ -4,7 +4,11 @@
 (*        ID ok, RCODE, abstract signature, cut) and what the user of the       *)
 (*        channel saw; the specification's receiver (Observe) must predict      *)
 (*        exactly that: the same envelopes without error, an error iff it says  *)
-(*        so, channel and connection closed, nothing after an error.            *)
+(*        so, channel and connection closed, nothing after an error.  Envelopes *)
+(*        carry their gap (ticks the receiver waited; ReadTimeout = TimeoutTicks *)
+(*        on the harness' virtual clock); the spellings of the zone name in     *)
+(*        query and answer are in the event's description only: nothing        *)
+(*        depends on them (Xfr!Spellings).                                      *)
 (*   out  one run of Transfer.Out behind a real server: the answer sections on  *)
 (*        the wire must be the chunks the handler fed, in order, each message   *)
 (*        with the query's ID, and the specification's receiver must find the   *)
